@@ -1,6 +1,8 @@
 package checks
 
 import (
+	"bytes"
+	"encoding/json"
 	"fmt"
 	"math"
 	"time"
@@ -290,6 +292,14 @@ func runC05(c *run.Ctx) {
 								rep("c05-illtyped", d, exp)
 							}
 							c.Count("values_type_checked", 1)
+						}
+						// ... and the same walk over the response AS TEXT: written by ggql's JSON writer, read by encoding/json
+						// (an Int is a JSON number there, not a string that looks like one)
+						if rd, isMap := out.Resp["data"].(map[string]interface{}); isMap {
+							if d := c05JSONWalk(s, ft, rd[fname], fname, explained == "K-C05-enum-undeclared"); d != "" {
+								rep("c05-illtyped-json", d, exp)
+							}
+							c.Count("values_type_checked_in_the_written_json", 1)
 						}
 					}
 				}
@@ -605,4 +615,38 @@ func toVList(v interface{}) interface{} {
 		return out
 	}
 	return v
+}
+
+// c05JSONWalk writes v with ggql.WriteJSONValue, decodes the text with encoding/json and runs the typed walk on what a
+// client would see.
+func c05JSONWalk(s *model.Schema, t *model.TypeRef, v interface{}, path string, enumOK bool) string {
+	var b bytes.Buffer
+	var werr error
+	if pv, _ := run.Protect(func() { werr = ggql.WriteJSONValue(&b, v, -1) }); pv != nil || werr != nil {
+		return fmt.Sprintf("%s: the value can not be written as JSON: %v %v", path, pv, werr)
+	}
+	dec := json.NewDecoder(bytes.NewReader(b.Bytes()))
+	dec.UseNumber()
+	var std interface{}
+	if err := dec.Decode(&std); err != nil {
+		return fmt.Sprintf("%s: the written text %s is not JSON: %v", path, clip(b.String(), 200), err)
+	}
+	var conv func(x interface{}) interface{}
+	conv = func(x interface{}) interface{} {
+		switch tv := x.(type) {
+		case json.Number:
+			return ref.Num(tv.String())
+		case []interface{}:
+			o := make([]interface{}, len(tv))
+			for i, e := range tv {
+				o[i] = conv(e)
+			}
+			return o
+		}
+		return x
+	}
+	if d := typedWalk(s, t, conv(std), path, enumOK); d != "" {
+		return d + " (in the JSON text " + clip(b.String(), 120) + ")"
+	}
+	return ""
 }
